@@ -300,4 +300,18 @@ example : Path.importPath true "/w".toList "./bindings/x/../a/A.ts".toList "bind
       = some (.ok "./A.js".toList) ∧
     Path.isSameFile "./bindings/x/../a/A.ts".toList "./A.js".toList = true := by decide
 
+
+/-- **Only a specifier that starts with `./` can pass the `is_same_file` test**, for every importing file and
+every specifier, with or without ES-module imports: a dependency reached through `../` — a parent or sibling
+directory, whatever the file names (`v2/index.ts` importing `../index`, seeded change C03-19) — is never
+taken for the importing file. -/
+theorem C03_same_file_starts_dot_slash (frm spec : Str) (h : Path.isSameFile frm spec = true) :
+    Text.startsWith ['.', '/'] spec = true :=
+  Path.same_file_starts_dot_slash frm spec h
+
+/-- the situation of C03-19 in the model: same stem, parent directory -/
+example : Path.importPath false "/w".toList "/w/v2/index.ts".toList "/w/index.ts".toList = some (.ok "../index".toList) ∧
+    Path.isSameFile "/w/v2/index.ts".toList "../index".toList = false ∧
+    Path.isSameFile "/w/v2/index.ts".toList "./index".toList = true := by decide
+
 end TsRs
